@@ -1,6 +1,7 @@
 package walfault
 
 import (
+	"encoding/json"
 	"fmt"
 	"hash/fnv"
 	"math/rand"
@@ -8,6 +9,7 @@ import (
 	"path/filepath"
 	"sort"
 	"sync"
+	"time"
 
 	"go.etcd.io/etcd/server/v3/storage/wal"
 )
@@ -97,6 +99,9 @@ func (a *agg) inc(k string, n int64) {
 }
 
 func (a *agg) addViolation(v *Violation) {
+	if v.CaseJSON == nil && v.Case != nil {
+		v.CaseJSON, _ = json.Marshal(v.Case)
+	}
 	cs := a.res.Classes[v.Class]
 	if cs == nil {
 		cs = &ClassStat{}
@@ -234,7 +239,11 @@ func RunBatch(p *Params) *Result {
 			repls = ReplsFull
 			res.Counters["sequences_corrupted_at_every_offset"]++
 		}
-		for _, c := range r.CorruptCases(full, repls) {
+		stride := 7
+		if p.Tier != "thorough" {
+			stride = 16
+		}
+		for _, c := range r.CorruptCases(full, stride, repls) {
 			c := c
 			jobs = append(jobs, job{order: next(), rec: r, corrupt: &c, latest: p.Tier == "thorough" || c.Off%5 == 0})
 			a.key(fmt.Sprintf("corrupt/%d/%s/%d/%s", r.SeqNo, c.File, c.Off, c.Repl))
@@ -280,6 +289,7 @@ func RunBatch(p *Params) *Result {
 				var cr *CaseResult
 				var what string
 				var cs interface{}
+				t0 := time.Now()
 				switch {
 				case j.crash != nil:
 					cr = j.rec.CheckCrash(dir, j.crash, j.deep)
@@ -311,14 +321,28 @@ func RunBatch(p *Params) *Result {
 					local["snap_"+cr.Outcome]++
 				}
 				local["evaluations"]++
+				local["worker_ms_"+what] += int64(time.Since(t0) / time.Microsecond)
 				local["library_panics_recovered"] += int64(cr.Panics)
 				for _, v := range cr.Viols {
 					v.Order = j.order
 					viols = append(viols, v)
 				}
 				if j.order%977 == 0 || (what == "crash" && cr.Repaired && j.order%211 == 0) {
-					samples = append(samples, map[string]interface{}{"kind": what, "case": cs, "outcome": cr.Outcome, "recovered_records": cr.N, "order": j.order})
+					sm := map[string]interface{}{"kind": what, "case": cs, "outcome": cr.Outcome, "recovered_records": cr.N, "order": j.order}
+					if j.crash != nil {
+						var ops []string
+						for k := j.crash.A + 1; k <= j.crash.B; k++ {
+							ops = append(ops, j.rec.Ops[k].String())
+						}
+						sm["ops_between_A_and_B"] = ops
+						sm["segsize"] = j.rec.SegSize
+						sm["accepted_prefix_records"] = []int{j.rec.Steps[j.crash.A].Dur, j.rec.Steps[j.crash.B].NRec}
+					}
+					samples = append(samples, sm)
 				}
+			}
+			for _, k := range []string{"crash", "corrupt", "snap"} {
+				local["worker_ms_"+k] /= 1000 // accumulated in microseconds
 			}
 			a.mu.Lock()
 			for k, v := range local {
